@@ -668,7 +668,11 @@ where
                                 msg.index, prev_lc, lc2
                             );*/
                             // we merge into the prev. one (so use the prev.one only)
-                            let is_buffered = buffered_lcs.contains(&prev_lc.id);
+                            // both need to be buffered. lc2 might have been confirmed already (e.g. by msgs
+                            // from other ecus) while prev_lc is still buffered. Then we can merge only if all
+                            // msgs of lc2 are still buffered (see else case).
+                            let is_buffered =
+                                buffered_lcs.contains(&prev_lc.id) && buffered_lcs.contains(&lc2.id);
                             if is_buffered {
                                 // the buffered lcs shall be merged again (so lc2 is invalid afterwards)
                                 // todo this is cpu intensive/expensive. try to reduce the likelyhood.
